@@ -167,12 +167,20 @@ func IntakeRecommitCases(r *out.Run, g *out.Group, kp *KeyPool, thorough bool) {
 	}
 	codes := []uint{SHA256, SHA512}
 	create := Build(Spec{Type: operation.TypeCreate, NextUpd: keys[0].Commitment(SHA256), NextRec: keys[1].Commitment(SHA256), DeltaID: 1})
+	calls := 0
 	parse := func(req []byte) (ok bool, pan string) {
 		defer func() {
 			if rr := recover(); rr != nil {
 				pan = fmt.Sprint(rr)
 			}
 		}()
+		// every other request has been through the batch-mode entry points of the same parser before
+		calls++
+		if calls%2 == 0 {
+			_, _ = ver.Parser.ParseOperation("did:sidetree", req, true)
+			_, _ = ver.Parser.GetRevealValue(req)
+			_, _ = ver.Parser.GetCommitment(req)
+		}
 		_, err := ver.Parser.Parse("did:sidetree", req)
 		return err == nil, ""
 	}
